@@ -66,6 +66,14 @@ def gen_param_value(r, family, depth=0):
             if r.random() < 0.4:
                 kw['verbose'] = r.random() < 0.5
             return {'class': 'tcw.objs.PObj' if r.random() < 0.7 else 'tcw.objs.PSub', 'kwargs': kw}
+        if t < 0.62:
+            # helper objects (ignored for persistence) inside a container argument, directly or one container further down
+            def hook():
+                return {'class': 'tcw.objs.PHook', 'kwargs': {'every': r.choice([1, 2, 5])}}
+            shape = r.choice(['list', 'dict', 'dictlist', 'listlist', 'plain', 'listdict'])
+            hooks = {'list': [hook(), r.choice([1, 'w'])], 'dict': {'epoch': hook()}, 'dictlist': {'epoch': [hook(), r.choice([3, 'q'])]},
+                     'listlist': [[hook()], r.choice(['z', 4])], 'plain': [r.choice(['plain', 'other']), 2], 'listdict': [{'end': hook()}, 5]}[shape]
+            return {'class': 'tcw.objs.PCb', 'kwargs': {'a': r.choice([1, 2, 'p']), 'hooks': hooks}}
         kw = {}
         if r.random() < 0.7:
             kw['c'] = r.choice([1, 2, 3])
